@@ -355,6 +355,6 @@ SUBS = [
         min_per_shard=10),
     Sub("faults", run_fault, replay, quick=400, thorough=10000,
         min_per_shard=10),
-    Sub("faults_all", run_fault_all, replay, quick=60, thorough=1500,
+    Sub("faults_all", run_fault_all, replay, quick=40, thorough=800,
         min_per_shard=5),
 ]
